@@ -10,9 +10,13 @@ package main
 func init() {
 	extraIntrinsics = append(extraIntrinsics, func(p *Program) {
 		ok := func(e *Exec, fr *frame, args []Value) Value { return Iface{} }
-		for _, path := range []string{"github.com/cockroachdb/pebble/v2", "github.com/cockroachdb/pebble"} {
-			p.intrinsics["(*"+path+".Batch).Set"] = ok
-			p.intrinsics["(*"+path+".Batch).Delete"] = ok
+		// only for the checks whose harnesses use a detached batch: anywhere else a silent no-op would
+		// drop real writes
+		if p.check != nil && (p.check.Property == "C15" || p.check.Property == "C16") {
+			for _, path := range []string{"github.com/cockroachdb/pebble/v2", "github.com/cockroachdb/pebble"} {
+				p.intrinsics["(*"+path+".Batch).Set"] = ok
+				p.intrinsics["(*"+path+".Batch).Delete"] = ok
+			}
 		}
 		// hash/crc32.MakeTable(poly): the Castagnoli path goes through sync.OnceFunc and CPU-feature
 		// probes; redirect to the package's own portable simpleMakeTable (requires hash/crc32 in
